@@ -115,12 +115,51 @@ package values
 //@       (exists j int :: 0 <= j && j < len(vars) && env(vars[j]) != "" && trace[len(trace)-1] == evSet(into, env(vars[j]), true))
 //@   ensures not-found-single: !result && !multi ==> (forall i int :: len(old(trace)) <= i && i < len(trace) && trace[i].kind == 5 ==> trace[i].b == 0)
 //@   ensures empty-list: len(envVars) == 0 ==> !result && trace == old(trace)
+//@   ensures true-iff-last-set-succeeded: result == (len(trace) > len(old(trace)) && trace[len(trace)-1].kind == 5 && trace[len(trace)-1].b == 1)
 //@   ensures found-multi: result && multi ==> (exists j int :: 0 <= j && j < len(vars) && env(vars[j]) != "" &&
 //@       trace == ((startTrace(1) ++ seq(evEnv(vars[j]))) ++ seq(evClear(into))) ++
 //@                trimSetEvs(into, strings_Split(env(vars[j]), ","), len(strings_Split(env(vars[j]), ","))))
 //@   loop 1 invariant failed-so-far: !multi ==> (forall i int :: len(old(trace)) <= i && i < len(trace) && trace[i].kind == 5 ==> trace[i].b == 0)
 //@   loop 1 invariant grows: len(trace) >= len(old(trace))
+//@   loop 1 invariant no-success-yet: len(trace) == len(old(trace)) || !(trace[len(trace)-1].kind == 5 && trace[len(trace)-1].b == 1)
 //@   loop 1 step single: !multi ==> trace == (startTrace(1) ++ seq(evEnv(ev))) ++ (env(ev) == "" ? noEvents() : seq(evSet(into, env(ev), false)))
+
+// String of the built-in types (C17: this is the text shown as the default in the help): %v of the value, %#v (quoted) for
+// strings, and `[e1, e2, ...]` for the lists
+// (assumed of the standard library: the strconv formatters print what %v / %#v print for the same basic value)
+//@ axiom itoa-is-percent-v: forall x int :: {strconv_Itoa(x)} strconv_Itoa(x) == fmt_sprintf("%v", seq(toIface("int", x)))
+//@ axiom formatbool-is-percent-v: forall b bool :: {strconv_FormatBool(b)} strconv_FormatBool(b) == fmt_sprintf("%v", seq(toIface("bool", b)))
+//@ axiom quote-is-percent-sharp-v: forall t string :: {strconv_Quote(t)} strconv_Quote(t) == fmt_sprintf("%#v", seq(toIface("string", t)))
+//@ func (*BoolValue).String
+//@   requires recv: bo != nil
+//@   ensures text: result == fmt_sprintf("%v", seq(toIface("BoolValue", deref(bo))))
+//@ func (*StringValue).String
+//@   requires recv: sa != nil
+//@   ensures text: result == fmt_sprintf("%#v", seq(toIface("StringValue", deref(sa))))
+//@ func (*IntValue).String
+//@   requires recv: ia != nil
+//@   ensures text: result == fmt_sprintf("%v", seq(toIface("IntValue", deref(ia))))
+//@ func (*Float64Value).String
+//@   requires recv: ia != nil
+//@   ensures text: result == fmt_sprintf("%v", seq(toIface("Float64Value", deref(ia))))
+//@ pure rec func stringsText(xs []string, n int) string =
+//@     n <= 0 ? "[" : (n-1 > 0 ? (stringsText(xs, n-1) + ", ") + fmt_sprintf("%#v", seq(toIface("string", xs[n-1]))) : stringsText(xs, n-1) + fmt_sprintf("%#v", seq(toIface("string", xs[n-1]))))
+//@ pure rec func intsText(xs []int, n int) string =
+//@     n <= 0 ? "[" : (n-1 > 0 ? (intsText(xs, n-1) + ", ") + fmt_sprintf("%v", seq(toIface("int", xs[n-1]))) : intsText(xs, n-1) + fmt_sprintf("%v", seq(toIface("int", xs[n-1]))))
+//@ pure rec func floatsText(xs []float64, n int) string =
+//@     n <= 0 ? "[" : (n-1 > 0 ? (floatsText(xs, n-1) + ", ") + fmt_sprintf("%v", seq(toIface("float64", xs[n-1]))) : floatsText(xs, n-1) + fmt_sprintf("%v", seq(toIface("float64", xs[n-1]))))
+//@ func (*StringsValue).String
+//@   requires recv: sa != nil
+//@   ensures text: result == stringsText(deref(sa), len(deref(sa))) + "]"
+//@   loop 1 invariant sofar: res == stringsText(deref(sa), $k)
+//@ func (*IntsValue).String
+//@   requires recv: ia != nil
+//@   ensures text: result == intsText(deref(ia), len(deref(ia))) + "]"
+//@   loop 1 invariant sofar: res == intsText(deref(ia), $k)
+//@ func (*Floats64Value).String
+//@   requires recv: ia != nil
+//@   ensures text: result == floatsText(deref(ia), len(deref(ia))) + "]"
+//@   loop 1 invariant sofar: res == floatsText(deref(ia), $k)
 
 // IsDefault of the built-in types (C17): exactly the zero value counts as "no default to show", and nothing is modified
 //@ func (*BoolValue).IsDefault
